@@ -6,7 +6,9 @@ ADV_STRINGS = [b"", b"a", b"hello", b"\x00", b"a\x00b", b'"', b"\\", b'q"uo\\te'
                b"\xe2\x80", b"\xed\xa0\x80", b"\xf4\x90\x80\x80", b"\xc0\x80", b"\xf0\x9f\x98", "�".encode(), b"\xef\xbf\xbd\xff",
                "ſK".encode(), b"method", b"org.varlink.service", b" sp ace ", b"{}", b"[1,2]", b"nul\x00l\x00", "日本語".encode()]
 NUMS = [b"0", b"-0", b"1", b"-1", b"42", b"9007199254740993", b"18446744073709551616", b"-9223372036854775808", b"1.5", b"-1.5e10", b"1E+2",
-        b"1e-2", b"0.000001", b"123456789012345678901234567890", b"1.0", b"2e0", b"0e0"]
+        b"1e-2", b"0.000001", b"123456789012345678901234567890", b"1.0", b"2e0", b"0e0",
+        # outside float64: a decoder that goes through float64 (interface{} / map decoding) rejects or mangles these
+        b"1e400", b"-2.5E+999", b"1" + b"0" * 310, b"1e-400", b"179769313486231580793728971405303415079934132710037826936173778980444968292764750946649017977587207096330286416692887910946555547851940402630657488671505820681908902000708383676273854845817711531764475730270069855571366959622842914819860834936475292719074168444365510704342711559699508093042880177904174497792"]
 BAD_NUMS = [b"01", b"1.", b".5", b"+1", b"1e", b"--1", b"0x10", b"NaN", b"1 ", b"1,2"]
 KEYS = [b"a", b"b", b"k", b"", b"method", b"parameters", b"x y", b'q"', b"\x00", "ké".encode(), b"B", b"aa", b"A"]
 
@@ -58,9 +60,9 @@ def rand_object(rng, depth=3, maps=True):
     return "{" + ",".join(hx(k) + ":" + rand_value(rng, depth - 1, maps) for k in keys) + "}"
 
 
-def big_value(rng, kind):
+def big_value(rng, kind, small=False):
     if kind == "bigstring":
-        n = rng.choice([70000, 1 << 20, 3 << 20])
+        n = rng.choice([70000, 1 << 20, 3 << 20]) if not small else rng.choice([70000, 300000])
         unit = rng.choice([b"a", b"\x00", b'"', "é".encode(), b"<", b"\xff"])
         return "S" + hx(unit * (n // len(unit))) + ";"
     if kind == "deep":
